@@ -4,6 +4,7 @@
   integers m..n strictly inside, and these pieces are disjoint.
 -/
 import LP.Props.C13Int
+import LP.Props.C13Obs
 import Mathlib.Order.Interval.Finset.Defs
 import Mathlib.Algebra.Order.Group.Int
 import Mathlib.Data.Int.Interval
@@ -243,6 +244,74 @@ theorem C13_countInt (I : VI) (hw : I.WF) (c : Int) (h : VI.countInt I = some c)
             omega
       · rw [hA, hB] at h; simp [EP.isInf, hp'] at h
     · exact absurd hA ha1
+
+/-- the step function of `lp_feasibility_set_count_int` -/
+def countStep (acc : Option Int) (I : VI) : Option Int :=
+  match acc, VI.countInt I with
+  | some c, some t => if t ≥ 2 ^ 63 - 1 - c then none else some (c + t)
+  | _, _ => none
+
+theorem countInt_eq_foldl (s : List VI) : FSet.countInt s = s.foldl countStep (some 0) := rfl
+
+theorem foldl_countStep_none (s : List VI) : s.foldl countStep none = none := by
+  induction s with
+  | nil => rfl
+  | cons I s ih => simpa [List.foldl_cons, countStep] using ih
+
+/-- invariant of the fold: the accumulator counts the integers of the intervals consumed so far -/
+theorem foldl_countStep_spec : ∀ (s : List VI) (done : List VI) (c0 c : Int) (S0 : Finset ℤ),
+    (∀ I ∈ s, I.WF) → (done ++ s).Pairwise (Sep ℚ) →
+    (∀ z : ℤ, z ∈ S0 ↔ SetMem ℚ done (z : ℚ)) → (S0.card : Int) = c0 →
+    s.foldl countStep (some c0) = some c →
+    ∃ S : Finset ℤ, (∀ z : ℤ, z ∈ S ↔ SetMem ℚ (done ++ s) (z : ℚ)) ∧ (S.card : Int) = c := by
+  intro s
+  induction s with
+  | nil =>
+    intro done c0 c S0 _ _ hS0 hc0 h
+    simp only [List.foldl_nil, Option.some.injEq] at h
+    exact ⟨S0, by simpa using hS0, by rw [hc0, h]⟩
+  | cons I s ih =>
+    intro done c0 c S0 hw hsep hS0 hc0 h
+    rw [List.foldl_cons] at h
+    cases ht : VI.countInt I with
+    | none =>
+      have : countStep (some c0) I = none := by simp [countStep, ht]
+      rw [this, foldl_countStep_none] at h; simp at h
+    | some t =>
+      by_cases hsat : t ≥ 2 ^ 63 - 1 - c0
+      · have : countStep (some c0) I = none := by
+          simp only [countStep, ht]; rw [if_pos hsat]
+        rw [this, foldl_countStep_none] at h; simp at h
+      · have hstep : countStep (some c0) I = some (c0 + t) := by
+          simp only [countStep, ht]; rw [if_neg hsat]
+        rw [hstep] at h
+        obtain ⟨SI, hSI, hcI⟩ := C13_countInt I (hw I (by simp)) t ht
+        -- the integers of I are new: I is separated from everything consumed so far
+        have hdisj : Disjoint S0 SI := by
+          rw [Finset.disjoint_left]
+          intro z hz0 hzI
+          obtain ⟨J, hJ, hzJ⟩ := (hS0 z).1 hz0
+          have hzI' := (hSI z).1 hzI
+          have hJI : Sep ℚ J I := by
+            have := List.pairwise_append.1 hsep
+            exact this.2.2 J hJ I (by simp)
+          exact lt_irrefl _ (hJI _ _ hzJ hzI')
+        have := ih (done ++ [I]) (c0 + t) c (S0 ∪ SI) (fun J hJ => hw J (List.mem_cons_of_mem _ hJ))
+          (by simpa using hsep)
+          (fun z => by
+            rw [Finset.mem_union, hS0 z, hSI z, setMem_append]
+            simp [SetMem])
+          (by rw [Finset.card_union_of_disjoint hdisj]; push_cast; rw [hc0, hcI])
+          h
+        simpa using this
+
+/-- **`lp_feasibility_set_count_int`**: a reported count is the number of integers in the set (normal-form lists) -/
+theorem C13_set_countInt (s : List VI) (hn : NFs s) (c : Int) (h : FSet.countInt s = some c) :
+    ∃ S : Finset ℤ, (∀ z : ℤ, z ∈ S ↔ SetMem ℚ s (z : ℚ)) ∧ (S.card : Int) = c := by
+  rw [countInt_eq_foldl] at h
+  have := foldl_countStep_spec s [] 0 c ∅ hn.1 (by simpa using nfs_pairwise_sep (α := ℚ) s hn)
+    (fun z => by simp [setMem_nil]) (by simp) h
+  simpa using this
 
 end FSet
 end LP
